@@ -141,8 +141,12 @@ def run(ck, prog, tier, load):
     ck.ob("C11-d.path-reset", reset.npath, any(e[:3] == ("const", None, 0) for bb, e in w_skip) and "clear" in c_seg, reset, None,
           "Path::reset sets skip=0 and clears the captured segments")
     upd = prog.one(r"^actix_router::url::Url::update$")
-    wu = {last_field_of_stmt(s) for bb, i, s in upd.assigns()}
-    ck.ob("C11-d.url-update", upd.npath, {"uri", "path"} <= {w.rsplit(".", 1)[-1] for w in wu if w}, upd, None, "Url::update overwrites both uri and the decoded path cache")
+    for fld in ("uri", "path"):
+        ws = [bb for bb, i, s in upd.assigns() if (last_field_of_stmt(s) or "").endswith("actix_router::url::Url." + fld)]
+        ok, wit = (False, None)
+        if ws:
+            ok, wit = upd.must_pass([0], upd.returns(), ws)
+        ck.ob("C11-d.url-update", fld, ok, upd, ws[0] if ws else None, "Url::update overwrites Url.%s on every path (a conditional overwrite lets the previous request's value survive recycling)" % fld, witness=upd.path_lines(wit))
 
     # ---- (e) RequestHead pool (actix-http)
     RH = "actix_http::requests::head::RequestHead"
